@@ -223,10 +223,13 @@ FullPx(stack, o, r) ==
   ELSE LET c(i) == RDiv(acc[i] + RDiv(o.bg[i] * 64 * (S - acc[4]), S), 64) IN <<c(1), c(2), c(3), 255>>
 Full(stack, o) == [r \in Regions(o) |-> FullPx(stack, o, r)]
 
-\* equality of two pixels within the tolerance; colour is immaterial where nothing is visible
+\* equality of two pixels within the tolerance.  Colour is immaterial where nothing is visible, and for translucent
+\* pixels the colour tolerance is in units of visible contribution (8-bit alpha rounding is amplified by 255/alpha
+\* in the straight colour channels): Tol/255 for opaque pixels (always the case for TRANSPARENT=false).
+Min(a, b) == IF a < b THEN a ELSE b
 Close(p, q) == /\ Abs(p[4] - q[4]) <= Tol
                /\ \/ p[4] <= Tol /\ q[4] <= Tol
-                  \/ \A i \in 1 .. 3 : Abs(p[i] - q[i]) <= Tol
+                  \/ \A i \in 1 .. 3 : Abs(p[i] - q[i]) * Min(p[4], q[4]) <= Tol * 255
 
 (***************************************************************************)
 (* The request as a machine.  st is one record; Step functions are pure so *)
@@ -246,7 +249,10 @@ SelStep(s) ==
       t == [s EXCEPT !.i = IF nxt = "select" THEN s.i + 1 ELSE 1, !.pc = nxt]
   IN IF ~InRange(LayerRng(L), s.o) THEN [t EXCEPT !.path = @ \cup {"skip"}]
      ELSE IF LayerOpaque(L, s.o)
-       THEN [t EXCEPT !.actual = L.srcs, !.path = @ \cup (IF s.actual # <<>> THEN {"prune"} ELSE {})]
+       THEN [t EXCEPT !.actual = L.srcs,
+                      !.path = @ \cup (IF s.actual # <<>> THEN {"prune"} ELSE {})
+                                 \cup (IF s.actual # <<>> /\ \A k \in 1 .. Len(L.srcs) : SrcOpaque(L.srcs[k], s.o) => L.srcs[k].op = 0
+                                       THEN {"prune_invisible"} ELSE {})]
        ELSE [t EXCEPT !.actual = @ \o L.srcs]
 
 \* service/wms.py:851-868 (i runs over the flattened render layers)
@@ -256,8 +262,11 @@ CombStep(s) ==
        IF n = 0 THEN [s EXCEPT !.units = <<<<x>>>>, !.i = @ + 1]
        ELSE IF Compatible(s.units[n], x, s.o)
          THEN [s EXCEPT !.units[n] = Append(@, x), !.i = @ + 1,
-                        !.path = @ \cup {"combine"} \cup (IF s.units[n][1].cov # "none" /\ s.units[n][1].clip # x.clip
-                                                          THEN {"combine_mixed_clip"} ELSE {})]
+                        !.path = @ \cup {"combine"}
+                                   \cup (IF s.units[n][1].cov # "none" /\ s.units[n][1].clip # x.clip
+                                         THEN {"combine_mixed_clip"} ELSE {})
+                                   \cup (IF ~InRange(UnitRng(s.units[n]), s.o) \/ ~InRange(x.rng, s.o)
+                                         THEN {"combine_out_of_range"} ELSE {})]
          ELSE IF "combine_far" \in Defects /\ n > 1 /\ Compatible(s.units[n - 1], x, s.o)
            THEN [s EXCEPT !.units[n - 1] = Append(@, x), !.i = @ + 1, !.path = @ \cup {"combine"}]
            ELSE [s EXCEPT !.units = Append(@, <<x>>), !.i = @ + 1]
